@@ -767,6 +767,13 @@ fn run(hist: usize, cfg: Cfg, steps: &[Step], crash_at: Option<u64>, skip: Optio
             sys.resolved.push(Step::Poll);
             sys.recover(&mut rec_line);
             rec_line.tok(format!("lkb={}", sys.lkb_height())).tok(format!("tip={}", sys.chain.height()));
+            // what the restarted gatekeeper holds IN MEMORY, as the wire shows it (a read: no statement, no RPC): the
+            // driver compares it with the users table dumped next (CrashReach.restart_loads_users)
+            for u in 0..2i64 {
+                let mut l = Line::new();
+                let _ = sys.step(&Step::Api(Op::GetSub { signer: u, class: 0 }), &mut l);
+                rec_line.tok(format!("mem{}={}", u, l.0.trim().replace(' ', "_")));
+            }
             rec_line.tok("REC").tok(sys.tables());
         }
     }
